@@ -649,6 +649,13 @@ MUTANTS = [
     {"name": "binding-energy-cached", "file": SPECIES, "old": "    def binding_energy(self) -> float:\n", "new": "    def binding_energy(self) -> float:\n        if self._binding_energy is None:\n            self._binding_energy = chemistrydata.user_binding_energy.get(self.name)\n", "rules": ["R3"]},
     {"name": "notimplemented-swallowed", "file": GR, "old": "        if rate is NotImplemented:\n            raise NotImplementedError(", "new": "        if rate is NotImplemented:\n            return \"0.0\"\n            raise NotImplementedError(", "rules": ["R1"]},
     {"name": "yield-default-changed", "file": RR, "old": "{spec.photon_yield or 0.1}", "new": "{spec.photon_yield or 1e-3}", "rules": ["R5"]},
+    {"name": "binding-energy-helper-table-before-user", "edits": [
+        {"file": SPECIES, "old": _EB_CHAIN, "new": "        eb = self._lookup_eb()\n"},
+        {"file": SPECIES, "old": "    @property\n    def binding_energy(self) -> float:\n", "new": "    def _lookup_eb(self):\n        if self._binding_energy:\n            return self._binding_energy\n        tab = chemistrydata.rate12_binding_energy.get(self.gasname)\n        if tab:\n            return tab\n        return chemistrydata.user_binding_energy.get(self.name)\n\n    @property\n    def binding_energy(self) -> float:\n"}], "rules": ["R3"]},
+    {"name": "binding-energy-sequential-ifs-user-skipped", "file": SPECIES, "old": _EB_CHAIN, "new": "        eb = self._binding_energy\n        if not eb:\n            eb = chemistrydata.rate12_binding_energy.get(self.gasname)\n", "rules": ["R3"]},
+    {"name": "binding-energy-cached-inside-helper", "edits": [
+        {"file": SPECIES, "old": _EB_CHAIN, "new": "        eb = self._lookup_eb()\n"},
+        {"file": SPECIES, "old": "    @property\n    def binding_energy(self) -> float:\n", "new": "    def _lookup_eb(self):\n        if not self._binding_energy:\n            self._binding_energy = chemistrydata.user_binding_energy.get(self.name) or chemistrydata.rate12_binding_energy.get(self.gasname)\n        return self._binding_energy\n\n    @property\n    def binding_energy(self) -> float:\n"}], "rules": ["R3"]},
 ]
 BENIGN = [
     {"name": "binding-energy-guard-clauses", "file": SPECIES, "old": _EB_CHAIN,
@@ -660,6 +667,16 @@ BENIGN = [
      "new": "        else:\n            builders = (\n                (ReactionType.GRAIN_DESORB_REACTIVE, \"rate_reactive_desorption\"),\n                (ReactionType.GRAIN_ECAPTURE, \"rate_electron_capture\"),\n            )\n            for known_type, builder_name in builders:\n                if rtype == known_type:\n                    rate = getattr(self, builder_name)(reac)\n                    break\n            else:\n                raise ValueError(\n                    f\"Unknown reaction type in {self.model} dust model: {rtype}\"\n                )\n"},
     {"name": "factors-reordered", "file": HH, "old": '                f"{opt_thd} * {cov}",\n                f"{nMono} * {densites}",', "new": '                f"{nMono} * {densites}",\n                f"{cov} * {opt_thd}",'},
     {"name": "sqrt-as-pow", "file": GR, "old": 'f"sqrt(8.0 * kerg * {tgas}/ (pi*amu*{spec.A}))"', "new": 'f"pow(8.0 * kerg * {tgas}/ (pi*amu*{spec.A}), 0.5)"'},
+    {"name": "binding-energy-sequential-ifs", "file": SPECIES, "old": _EB_CHAIN, "new": "        eb = self._binding_energy\n        if not eb:\n            eb = chemistrydata.user_binding_energy.get(self.name)\n        if not eb:\n            eb = chemistrydata.rate12_binding_energy.get(self.gasname)\n"},
+    {"name": "binding-energy-lookup-helper", "edits": [
+        {"file": SPECIES, "old": _EB_CHAIN, "new": "        eb = self._lookup_eb()\n"},
+        {"file": SPECIES, "old": "    @property\n    def binding_energy(self) -> float:\n", "new": "    def _lookup_eb(self):\n        if self._binding_energy:\n            return self._binding_energy\n        usr = chemistrydata.user_binding_energy.get(self.name)\n        if usr:\n            return usr\n        return chemistrydata.rate12_binding_energy.get(self.gasname)\n\n    @property\n    def binding_energy(self) -> float:\n"}]},
+    {"name": "photon-yield-local-with-fallback", "file": SPECIES, "old": "        return self._photon_yield or chemistrydata.user_photon_yield.get(self.name, 0.0)\n",
+     "new": "        phyld = self._photon_yield\n        if not phyld:\n            phyld = chemistrydata.user_photon_yield.get(self.name, 0.0)\n        return phyld\n"},
+    {"name": "dispatch-as-class-level-table-scan", "edits": [
+        {"file": GR, "old": "        elif rtype == ReactionType.GRAIN_DESORB_REACTIVE:\n            rate = self.rate_reactive_desorption(reac)\n\n        elif rtype == ReactionType.GRAIN_ECAPTURE:\n            rate = self.rate_electron_capture(reac)\n\n        else:\n            raise ValueError(\n                f\"Unknown reaction type in {self.model} dust model: {rtype}\"\n            )\n",
+         "new": "        else:\n            for known_type, builder_name in self._late_builders:\n                if rtype == known_type:\n                    rate = getattr(self, builder_name)(reac)\n                    break\n            else:\n                raise ValueError(\n                    f\"Unknown reaction type in {self.model} dust model: {rtype}\"\n                )\n"},
+        {"file": GR, "old": "    def rateexpr(self, reac: Reaction) -> str:\n", "new": "    _late_builders = (\n        (ReactionType.GRAIN_DESORB_REACTIVE, \"rate_reactive_desorption\"),\n        (ReactionType.GRAIN_ECAPTURE, \"rate_electron_capture\"),\n    )\n\n    def rateexpr(self, reac: Reaction) -> str:\n"}]},
 ]
 
 
